@@ -210,69 +210,78 @@ func c05WordPack(c *Ctx, w *prove.World) {
 	rel := smbPrefix + "/message/parameters"
 	ok := true
 	why := []string{}
-	// Marshal / Unmarshal: only BE accessors
-	for _, m := range []string{"Marshal", "Unmarshal"} {
+	// Marshal, GetBytesStream (encoder side) and Unmarshal (decoder side): the
+	// layout the codec extractor reads off them holds the words as 2-byte
+	// big-endian atoms — whether written with encoding/binary, with manual
+	// shifts (byte(w>>8), byte(w&0xFF)) or through one another
+	wordAtoms := func(as []codec.Atom) (n int, bad string, unknown string) {
+		var walk func(as []codec.Atom)
+		walk = func(as []codec.Atom) {
+			for _, a := range as {
+				switch {
+				case a.Kind == "repeat" || a.Kind == "cond":
+					walk(a.Body)
+				case a.Kind == "unknown":
+					unknown = a.Expr
+				case strings.HasPrefix(a.Field, "Words"):
+					n++
+					if a.Kind != "fixed" || a.Width != 2 || a.Order != "BE" {
+						bad = a.String()
+					}
+				case a.Kind == "nested" || (a.Kind == "fixed" && a.Field == "" && a.Width == 1 && a.LaneOf != nil):
+					unknown = a.String()
+				}
+			}
+		}
+		walk(as)
+		return
+	}
+	undecided := ""
+	for _, m := range []string{"Marshal", "GetBytesStream", "Unmarshal"} {
 		fn := p.Func(rel, "Parameters", m)
 		if fn == nil {
 			r.Undecided("wordpack", "Parameters."+m, "", "not found")
 			return
 		}
-		n := 0
-		for _, b := range fn.Blocks {
-			for _, in := range b.Instrs {
-				if call, isC := in.(*ssa.Call); isC {
-					if _, order, isA := binAccessor(call); isA {
-						n++
-						if order != "BE" {
-							ok = false
-							why = append(why, m+" uses a little-endian accessor")
-						}
+		ex := codec.NewExt(w, fn)
+		var as []codec.Atom
+		if m == "Unmarshal" {
+			as = ex.Decoded()
+		} else {
+			for _, b := range fn.Blocks {
+				ret, isR := b.Instrs[len(b.Instrs)-1].(*ssa.Return)
+				if !isR {
+					continue
+				}
+				if len(ret.Results) == 2 {
+					if k, isK := ret.Results[1].(*ssa.Const); !isK || k.Value != nil {
+						continue
 					}
 				}
+				if k, isK := ret.Results[0].(*ssa.Const); isK && k.Value == nil {
+					continue
+				}
+				as = append(as, ex.Seq(ret.Results[0])...)
 			}
 		}
-		if n == 0 {
+		n, bad, unk := wordAtoms(as)
+		switch {
+		case bad != "":
 			ok = false
-			why = append(why, m+" has no accessor call")
+			why = append(why, fmt.Sprintf("%s does not carry each word as 2 bytes, high byte first: %s", m, bad))
+		case n == 0 || unk != "":
+			if inc := ex.Incomplete(); inc != "" {
+				unk = inc
+			}
+			if unk == "" {
+				unk = "no atom of the Words field in its layout [" + codec.Render(as) + "]"
+			}
+			undecided = m + ": " + unk
 		}
 	}
-	// GetBytesStream: appends byte(word>>8) then byte(word&0xFF)
-	if fn := p.Func(rel, "Parameters", "GetBytesStream"); fn != nil {
-		hi, lo := -1, -1
-		idx := 0
-		for _, b := range fn.Blocks {
-			for _, in := range b.Instrs {
-				st, isS := in.(*ssa.Store)
-				if !isS {
-					continue
-				}
-				if _, isIA := st.Addr.(*ssa.IndexAddr); !isIA {
-					continue
-				}
-				v := st.Val
-				if cv, isC := v.(*ssa.Convert); isC {
-					v = cv.X
-				}
-				if bo, isB := v.(*ssa.BinOp); isB {
-					switch bo.Op {
-					case token.SHR:
-						if k, isK := bo.Y.(*ssa.Const); isK && k.Value != nil && constant.Compare(k.Value, token.EQL, constant.MakeInt64(8)) {
-							hi = idx
-						}
-					case token.AND:
-						lo = idx
-					}
-				}
-				idx++
-			}
-		}
-		if !(hi >= 0 && lo >= 0 && hi < lo) {
-			ok = false
-			why = append(why, "GetBytesStream does not emit the high byte before the low byte")
-		}
-	} else {
-		ok = false
-		why = append(why, "GetBytesStream not found")
+	if undecided != "" && ok {
+		c.NotDecided("wordpack", "Parameters word packing", "", "layout not read completely — "+undecided)
+		return
 	}
 	// AddWordsFromBytesStream: word = uint16(b[i])<<8 | uint16(b[i+1])
 	if fn := p.Func(rel, "Parameters", "AddWordsFromBytesStream"); fn != nil {
